@@ -171,8 +171,13 @@ static void janetc_free_regnear(JanetCompiler *c, JanetSlot s, int32_t reg, Jane
     if (reg != s.index ||
             s.envindex >= 0 ||
             s.flags & (JANET_SLOT_CONSTANT | JANET_SLOT_REF)) {
-        /* We need to free the temporary slot */
-        janetc_regalloc_freetemp(&c->scope->ra, reg, tag);
+        /* We need to free the temporary slot. A far register comes from
+         * janetc_allocfar (see janetc_regfar), not from the reserved temporaries. */
+        if (reg > 0xFF) {
+            janetc_regalloc_free(&c->scope->ra, reg);
+        } else {
+            janetc_regalloc_freetemp(&c->scope->ra, reg, tag);
+        }
     }
 }
 
